@@ -172,8 +172,8 @@ def run_check(pid, tier, seed):
             executed[k] = executed.get(k, 0) + v
         notes.update(fr.get("notes") or {})
         capped = capped or fr.get("hashes_capped", False)
-        if i < 3:
-            samples.extend((fr.get("samples") or [])[:8])
+        if i < 4:
+            samples.extend((fr.get("samples") or [])[:6])
         hashes |= read_hashes(os.path.join(rundir, "frag%d.hashes" % i))
 
     violations = []
